@@ -254,7 +254,7 @@ def applyTuplet (start end_ : Nat) (layers : List (Nat × Nat × List Item)) (t 
         | some i, some j =>
           if i ≤ j then
             (wrapItems l.2.2 i j num numbase).map fun wrapped =>
-              layers.map fun l' => if l'.1 = l.1 ∧ l'.2.1 = l.2.1 then (l'.1, l'.2.1, wrapped) else l'
+              layers.map fun l' => if l' = l then (l.1, l.2.1, wrapped) else l'
           else none
         | _, _ => none
 
@@ -325,11 +325,13 @@ def staffDefEvs (p : MPart) (s : Nat) : List Ev :=
   el "staffDef" [("n", natStr s), ("lines", "5")] (clefEl ++ keyEl ++ meterEl)
 
 /-- `save_mei(part)`: the events of the whole document -/
+def initKeys (p : MPart) : List String :=
+  match p.key0 with
+  | some k => keyList [] k.fifths
+  | none => []
+
 def writeMei (p : MPart) : Option (List Ev) :=
-  let ks0 := match p.key0 with
-    | some k => keyList [] k.fifths
-    | none => []
-  (measuresEvs p.nstaves ks0 p.measures).map fun body =>
+  (measuresEvs p.nstaves (initKeys p) p.measures).map fun body =>
     el "mei" [("meiversion", "4.0.1")]
       (el "meiHead" [] (el "fileDesc" [] (el "titleStmt" [] (el "title" [] []))) ++
        el "music" [] (el "body" [] (el "mdiv" [] (el "score" []
